@@ -46,6 +46,7 @@ func init() {
 			fs.Tri(n, Unknown, "sdk/go/hydraidego/client/client.go")
 		}
 		c20Routing(fs)
+		c20Glue(fs)
 
 		srv, err1 := Load(srvPath)
 		sdk, err2 := Load(sdkPath)
